@@ -19,6 +19,16 @@ CHECKS = {
         'note': _NOTE + ' Inputs are lattice points (integers in quarter dex, W in {1,4,16}, K_j in 0..4); nothing is claimed about rounding-error growth off the lattice.',
         'technique': 'TLA+ spec (exact rational kernel) + TLC exhaustive check of KKT optimality; spec->code replay; code->spec trace validation',
     },
+    'C02': {
+        'text': 'MC_FitDist.tla: (a) the size of the log-uniform distance grid as exact rational arithmetic, with the theorem (ASSUMEd, i.e. evaluated by TLC) that it is the fewest points including both ends with spacing <= the step, for spans 0..5 and steps sp/sq, sp,sq in 1..7; '
+                '(b) the exact construction of aperture tables from a desired cube for the recipes on-a-knot / midway-between-two-knots / beyond-the-largest-knot (ASSUMEd theorem on integer-dex instances, ratios 2 and 10); (c) per model and distance the 1-parameter A_V optimum, '
+                'clip, chi^2 with penalties (FitKernel!FitAtDist), KKT certificate per distance and ChiIsGridMinimum, for all 36 flag pairs x values x qualities, 2 cubes (pure inverse square; exact ties over the grid, non-monotone, duplicated model), 3 extinction patterns, 4 A_V ranges, 1..3 distances.  '
+                'Replay on real aperture-dependent packages of both formats (memmap on/off): models.distances and every cell of models.fluxes (interpolation x d^-2), then every model of every sampled FitInfo (scale = log10 of a grid distance in the admissible set, A_V, chi^2, predicted fluxes at that distance); '
+                'grid sizes for 125 (span, step) combinations.',
+        'ref': 'DESIGN.md section 6 C02',
+        'note': _NOTE + ' Exact multiples span/step admit n or n+1 distances; a limit exactly met at some distance relaxes that model\'s comparison. remove_resolved is not modelled.',
+        'technique': 'TLA+ spec (exact grid arithmetic, table construction, per-distance kernel) + TLC; spec->code replay through Fitter on constructed aperture tables',
+    },
     'C03': {
         'text': 'The same kernel with the flag semantics as relational invariants checked by TLC for all 6^3 flag vectors (x values x qualities) and '
                 'PenaltyOnlyOnForbiddenSide for all 6^4 and 6^5 flag vectors: ignored bands are irrelevant, limits never enter the LSQ, zero confidence == unused, '
